@@ -244,6 +244,20 @@ func (t *Tree) Find(p string) *Entry {
 	return nil
 }
 
+// Dedupe drops every entry whose path was already listed.
+func (t *Tree) Dedupe() {
+	seen := map[Name]bool{}
+	out := t.Entries[:0]
+	for _, e := range t.Entries {
+		if seen[e.Path] {
+			continue
+		}
+		seen[e.Path] = true
+		out = append(out, e)
+	}
+	t.Entries = out
+}
+
 // Materialise creates the tree under root (which is created). Directory
 // metadata is applied last, deepest first, so read-only directories work.
 func Materialise(root string, t *Tree) error {
@@ -256,7 +270,11 @@ func Materialise(root string, t *Tree) error {
 		e    Entry
 	}
 	var dirs []dirfix
-	for _, e := range es {
+	for i, e := range es {
+		if i > 0 && es[i-1].Path == e.Path {
+			// (writing a "file" over a fifo of the same name would block forever)
+			return fmt.Errorf("fstree: path %q listed twice", string(e.Path))
+		}
 		p := filepath.Join(root, string(e.Path))
 		if err := os.MkdirAll(filepath.Dir(p), 0755); err != nil {
 			return err
